@@ -243,21 +243,21 @@ def subchecks():
             name="equations",
             run_case=run_equations,
             strategy=lambda tier: gen.scenario(tier, allow_pack=False),
-            examples={"quick": 3000, "thorough": 40000},
+            examples={"quick": 3000, "thorough": 80000},
             case_timeout=40.0,
         ),
         SubCheck(
             name="rule-equations",
             run_case=run_rule_equation,
             strategy=lambda tier: __import__("vf.ruleforms", fromlist=["form_case"]).form_case(tier),
-            examples={"quick": 3000, "thorough": 50000},
+            examples={"quick": 3000, "thorough": 200000},
             case_timeout=40.0,
         ),
         SubCheck(
             name="genf",
             run_case=run_genf,
             strategy=lambda tier: genf_scenario(tier),
-            examples={"quick": 300, "thorough": 4000},
+            examples={"quick": 300, "thorough": 8000},
             case_timeout=60.0,
         ),
     ]
